@@ -109,9 +109,6 @@ Qed.
 
 (** ** routes of a stamped rule set *)
 
-Definition mk_route (s : nat) (d : rdef) (e : str) : route :=
-  {| rt_rule := {| r_src := s; r_def := d |}; rt_path := e |}.
-
 Lemma in_stamp s ds r : In r (stamp s ds) <-> r_src r = s /\ In (r_def r) ds.
 Proof.
   unfold stamp. rewrite in_map_iff. split.
@@ -119,17 +116,23 @@ Proof.
   - intros [E H]. exists (r_def r). destruct r. simpl in *. subst. tauto.
 Qed.
 
+(** a route of a stamped rule set belongs to one of its definitions and spells one of its paths *)
 Lemma in_routes_stamp s ds x :
-  In x (routes (stamp s ds)) <-> exists d e, In d ds /\ In e (d_paths d) /\ x = mk_route s d e.
+  In x (routes (stamp s ds)) ->
+  exists d, In d ds /\ rt_rule x = {| r_src := s; r_def := d |} /\ In (rt_path x) (d_paths d).
 Proof.
-  rewrite in_routes. split.
-  - intros (r & Hr & Hx). apply in_stamp in Hr as [Es Hd].
-    unfold routes_of in Hx. apply in_map_iff in Hx as (e & E & He).
-    exists (r_def r), e. split; [exact Hd|]. split; [exact He|].
-    subst x. unfold mk_route. destruct r. simpl in *. subst. reflexivity.
-  - intros (d & e & Hd & He & E). exists {| r_src := s; r_def := d |}. split.
-    + apply in_stamp. simpl. tauto.
-    + unfold routes_of. simpl. apply in_map_iff. exists e. split; [symmetry; exact E | exact He].
+  rewrite in_routes. intros (r & Hr & Hx). apply in_stamp in Hr as [Es Hd].
+  apply routes_of_in in Hx as [E He]. exists (r_def r). split; [exact Hd|]. split; [|exact He].
+  rewrite E. destruct r. simpl in *. subst. reflexivity.
+Qed.
+
+(** and every path of every definition has its route *)
+Lemma routes_stamp_ex s ds d e : In d ds -> In e (d_paths d) ->
+  exists x, In x (routes (stamp s ds)) /\ rt_rule x = {| r_src := s; r_def := d |} /\ rt_path x = e.
+Proof.
+  intros Hd He. destruct (routes_of_ex {| r_src := s; r_def := d |} e He) as (x & Hx & Ep).
+  exists x. split; [|split; [apply (routes_of_rule _ _ Hx) | exact Ep]].
+  apply in_routes. exists {| r_src := s; r_def := d |}. split; [|exact Hx]. apply in_stamp. simpl. tauto.
 Qed.
 
 Lemma stamp_filter s (P : rdef -> bool) ds :
@@ -159,13 +162,13 @@ Lemma valid_exprs_routes s ds :
   forallb valid_expr (exprs ds) = true <-> forall x, In x (routes (stamp s ds)) -> rpat x <> None.
 Proof.
   rewrite forallb_forall. unfold exprs. split.
-  - intros H x Hx. apply in_routes_stamp in Hx as (d & e & Hd & He & E). subst x. unfold rpat. simpl.
-    specialize (H e). unfold valid_expr in H. destruct (pat_of e); [discriminate|].
+  - intros H x Hx. apply in_routes_stamp in Hx as (d & Hd & _ & He). unfold rpat.
+    specialize (H (rt_path x)). unfold valid_expr in H. destruct (pat_of (rt_path x)); [discriminate|].
     exfalso. assert (false = true); [|discriminate]. apply H. apply in_flat_map. exists d. tauto.
   - intros H e He. apply in_flat_map in He as (d & Hd & He).
-    specialize (H (mk_route s d e)). unfold rpat in H. simpl in H. unfold valid_expr.
-    destruct (pat_of e); [reflexivity|]. exfalso. apply H; [|reflexivity].
-    apply in_routes_stamp. exists d, e. tauto.
+    destruct (routes_stamp_ex s ds d e Hd He) as (x & Hx & _ & Ep).
+    specialize (H x Hx). unfold rpat in H. rewrite Ep in H. unfold valid_expr.
+    destruct (pat_of e); [reflexivity|]. exfalso. apply H. reflexivity.
 Qed.
 
 Lemma mem_pat_in p l : mem_pat p l = true <-> In p l.
@@ -189,11 +192,10 @@ Qed.
 Lemma pats_routes s p ds : In p (pats ds) <-> exists x, In x (routes (stamp s ds)) /\ has_pat p x = true.
 Proof.
   rewrite in_pats. split.
-  - intros (d & e & Hd & He & Hp). exists (mk_route s d e). split.
-    + apply in_routes_stamp. exists d, e. tauto.
-    + apply has_pat_rpat. exact Hp.
-  - intros (x & Hx & Hp). apply in_routes_stamp in Hx as (d & e & Hd & He & E). subst x.
-    apply has_pat_rpat in Hp. exists d, e. tauto.
+  - intros (d & e & Hd & He & Hp). destruct (routes_stamp_ex s ds d e Hd He) as (x & Hx & _ & Ep).
+    exists x. split; [exact Hx|]. apply has_pat_rpat. unfold rpat. rewrite Ep. exact Hp.
+  - intros (x & Hx & Hp). apply in_routes_stamp in Hx as (d & Hd & _ & He).
+    apply has_pat_rpat in Hp. exists d, (rt_path x). tauto.
 Qed.
 
 Lemma in_def_pats p d : In p (def_pats d) <-> exists e, In e (d_paths d) /\ pat_of e = Some p.
@@ -289,11 +291,14 @@ Lemma def_pats_routes s d :
   (forall e, In e (d_paths d) -> pat_of e <> None) ->
   map rpat (routes_of {| r_src := s; r_def := d |}) = map Some (def_pats d).
 Proof.
-  unfold routes_of, def_pats, pats, exprs. simpl. rewrite app_nil_r. rewrite map_map. unfold rpat. simpl.
+  assert (E : map rpat (routes_of {| r_src := s; r_def := d |}) = map pat_of (d_paths d)).
+  { change (d_paths d) with (d_paths (r_def {| r_src := s; r_def := d |})).
+    rewrite <- (map_rt_path {| r_src := s; r_def := d |}), map_map. reflexivity. }
+  rewrite E. clear E. unfold def_pats, pats, exprs. simpl. rewrite app_nil_r.
   induction (d_paths d) as [|e l IH]; simpl; intro H; [reflexivity|].
-  destruct (pat_of e) eqn:E.
+  destruct (pat_of e) eqn:Ee.
   - simpl. f_equal. apply IH. intros x Hx. apply H. right. exact Hx.
-  - exfalso. apply (H e); [left; reflexivity | exact E].
+  - exfalso. apply (H e); [left; reflexivity | exact Ee].
 Qed.
 
 Lemma NoDup_map_Some {A} (l : list A) : NoDup l -> NoDup (map Some l).
